@@ -162,7 +162,58 @@ int main(int argc, char ** argv)
       // a reused action may still hold the vertex generator of the previous configuration: ask for its own vertex
       vmode = action.HasVertexGenerator() ? 3 : 0;
     }
-    action.SetConfiguration(cfg);
+    if (reuse && ci % 3 == 2) {
+      // the path the UI commands take: 'destroy', then the working configuration is filled field by field - only the fields the
+      // request needs - and flagged as changed.  After 'destroy' the working configuration is the default one.
+      lab += "/destroy+grab";
+      classes.insert(lab);
+      action.DestroyConfiguration();
+      {
+        const PGA::ConfigurationInterface & got = action.GetConfiguration();
+        const PGA::ConfigurationInterface def;
+        std::string stale;
+        if (got.decay_category != def.decay_category) stale += " decay_category";
+        if (got.nuclide != def.nuclide) stale += " nuclide";
+        if (got.seed != def.seed) stale += " seed";
+        if (got.dbd_mode != def.dbd_mode) stale += " dbd_mode";
+        if (got.dbd_level != def.dbd_level) stale += " dbd_level";
+        if (got.dbd_min_energy_MeV != def.dbd_min_energy_MeV) stale += " dbd_min_energy_MeV";
+        if (got.dbd_max_energy_MeV != def.dbd_max_energy_MeV) stale += " dbd_max_energy_MeV";
+        if (got.debug != def.debug) stale += " debug";
+        if (got.use_mdl != def.use_mdl) stale += " use_mdl";
+        if (got.mdl_target_name != def.mdl_target_name) stale += " mdl_target_name";
+        if (got.mdl_target_rank != def.mdl_target_rank) stale += " mdl_target_rank";
+        if (got.mdl_cone_longitude != def.mdl_cone_longitude) stale += " mdl_cone_longitude";
+        if (got.mdl_cone_colatitude != def.mdl_cone_colatitude) stale += " mdl_cone_colatitude";
+        if (got.mdl_cone_aperture != def.mdl_cone_aperture) stale += " mdl_cone_aperture";
+        if (got.mdl_cone_aperture2 != def.mdl_cone_aperture2) stale += " mdl_cone_aperture2";
+        if (got.mdl_error_on_missing_particle != def.mdl_error_on_missing_particle) stale += " mdl_error_on_missing_particle";
+        if (!stale.empty()) fail("destroy|stale-field", lab + ": after DestroyConfiguration() the working configuration still carries the previous request's:" + stale);
+      }
+      PGA::ConfigurationInterface & w = action.GrabConfiguration();
+      w.decay_category = cfg.decay_category;
+      w.nuclide = cfg.nuclide;
+      w.seed = cfg.seed;
+      if (dbd) {
+        w.dbd_mode = cfg.dbd_mode;
+        w.dbd_level = cfg.dbd_level;
+        if (cfg.dbd_min_energy_MeV > 0) w.dbd_min_energy_MeV = cfg.dbd_min_energy_MeV;
+        if (cfg.dbd_max_energy_MeV > 0) w.dbd_max_energy_MeV = cfg.dbd_max_energy_MeV;
+      }
+      if (cfg.use_mdl) {
+        w.use_mdl = true;
+        w.mdl_target_name = cfg.mdl_target_name;
+        w.mdl_target_rank = cfg.mdl_target_rank;
+        w.mdl_cone_longitude = cfg.mdl_cone_longitude;
+        w.mdl_cone_colatitude = cfg.mdl_cone_colatitude;
+        w.mdl_cone_aperture = cfg.mdl_cone_aperture;
+        if (cfg.mdl_cone_aperture2 >= 0) w.mdl_cone_aperture2 = cfg.mdl_cone_aperture2;
+        if (cfg.mdl_error_on_missing_particle) w.mdl_error_on_missing_particle = true;
+      }
+      action.SetConfigHasChanged(true);
+    } else {
+      action.SetConfiguration(cfg);
+    }
     int aborts0 = g4mock::recorder().abort_run;
     // the gun the action publishes can be touched by the application (GetParticleGun(), '/gun/number N'): whatever it holds before
     // an event, the action still produces exactly one primary per BxDecay0 particle
